@@ -73,6 +73,12 @@ def stress_histories():
         "dummies": [{"op": "dummy.skew", "n": 200}, {"op": "sympy.clear_cache"}],
         "codegen": req("code.generate_code(code3,einsum)", "code.optimize_contractions(code3)",
                        "code.generate_code(contr2,libtensor)"),
+        "codegen-long": req(*(["code.generate_code(code3,einsum)",
+                               "code.generate_code(pairs,libtensor)"] * 4)),
+        "spin-pools": [{"op": "reg.generic", "kw": {k: n}} for k, n in (
+            ("occ_a", 2), ("occ_b", 2), ("occ_a", 3), ("occ_b", 3), ("virt_a", 5), ("occ_a", 2),
+            ("occ_b", 3), ("virt_b", 5), ("occ_a", 4), ("virt_a", 5), ("occ_b", 2), ("occ_a", 3),
+            ("general_a", 3), ("general_b", 6), ("general_a", 4))],
         "imports": req("expr.print_import_print(contr2)", "expr.simplify(big_simplify)",
                        "expr.wicks(wick3)"),
         "aborted-energy": [{"op": "req", "t": "gs.mp.energy(2)",
